@@ -1,4 +1,4 @@
 ---- MODULE MC_Timestamp ----
 EXTENDS Timestamp, Json
-Emit == PrintT(<<"VEC", ToJson([token |-> token, imprint |-> imprint, sig |-> sig, anchoring |-> anchoring, cert |-> cert, usable |-> Usable, reported |-> Reported, verdict |-> Verdict])>>)
+Emit == PrintT(<<"VEC", ToJson([token |-> token, imprint |-> imprint, sig |-> sig, anchoring |-> anchoring, cert |-> cert, tsaAlg |-> tsaAlg, usable |-> Usable, reported |-> Reported, verdict |-> Verdict])>>)
 ====
